@@ -425,6 +425,20 @@ func visitInstr(fr *frame, instr ssa.Instruction) continuation {
 				fr.env[instr] = *p
 			}
 		case string:
+			if si, ok := idx.(sym); ok && len(x) <= SymIndexLimit {
+				// constant table lookup (e.g. math/bits tables): ITE chain over the bytes
+				elems := make([]value, len(x))
+				for k := 0; k < len(x); k++ {
+					elems[k] = x[k]
+				}
+				switch p := indexAddr(fr, elems, si).(type) {
+				case symElemPtr:
+					fr.env[instr] = p.load()
+				case *value:
+					fr.env[instr] = *p
+				}
+				break
+			}
 			i := asInt64(fr.i.ex.Concretize(idx))
 			if i < 0 || i >= int64(len(x)) {
 				panic(runtimePanic(fmt.Sprintf("index out of range [%d] with length %d", i, len(x))))
